@@ -13,6 +13,7 @@ from pandas.api.extensions import register_series_accessor
 
 from nested_pandas.series.dtype import NestedDtype
 from nested_pandas.series.packer import pack_sorted_df_into_struct
+from nested_pandas.series.utils import copy_if_numpy_backed
 
 __all__ = ["NestSeriesAccessor"]
 
@@ -530,7 +531,7 @@ class NestSeriesAccessor(Mapping):
         if isinstance(value, pd.Series) and not self.get_flat_index().equals(value.index):
             raise ValueError("Cannot set field with a Series of different index")
 
-        pa_array = pa.array(value, from_pandas=True)
+        pa_array = pa.array(copy_if_numpy_backed(value), from_pandas=True)
 
         # Input is a flat array of values
         if len(pa_array) != self.flat_length:
